@@ -92,7 +92,8 @@ def build(r):
     # --- body
     if k in (0, 2, 4):
         for i in range(r['npar']):
-            p = text.P(stylename=names[i % len(names)], text=u'para %d & <x>' % i)
+            # strings the writer has to filter or escape: rendering must not write the filtered form back into the node
+            p = text.P(stylename=names[i % len(names)], text=u'para %d & <x> \x0b\x0c\ufffe\r\t\x7f]]>' % i)
             p.addElement(text.Span(text=u' span ', stylename=u'Unused' if i == 1 else u'Missing'))
             d.text.addElement(p)
         d.text.addElement(text.H(outlinelevel=1, text=u'Heading'))
@@ -294,18 +295,26 @@ def toks_node(n, coder, out):
     return out
 
 
-def canon_tokens(toks, pos=0):
+def _filt(w):
+    """the writer's character filter (C01/C02: unrepresentable and discouraged code points become U+FFFD), applied to the
+    MODEL's output strings, because the model renders the in-memory strings and the real output is compared after parsing"""
+    from common import dec_str
+    import xmlchecks
+    return enc_str(xmlchecks.hu_like(dec_str(w)))
+
+
+def canon_tokens(toks, pos=0, filt=False):
     """parse driver tokens of one node, return (canonical token list, next position): attrs sorted, text merged"""
     if toks[pos] == 'T':
-        return ['T', toks[pos + 1]], pos + 2
+        return ['T', _filt(toks[pos + 1]) if filt else toks[pos + 1]], pos + 2
     name = toks[pos + 1]; na = int(toks[pos + 2]); pos += 3
     attrs = []
     for _ in range(na):
-        attrs.append((int(toks[pos]), toks[pos + 1])); pos += 2
+        attrs.append((int(toks[pos]), _filt(toks[pos + 1]) if filt else toks[pos + 1])); pos += 2
     nk = int(toks[pos]); pos += 1
     kids = []
     for _ in range(nk):
-        k, pos = canon_tokens(toks, pos)
+        k, pos = canon_tokens(toks, pos, filt)
         if k[0] == 'T':
             if k[1] == '-':
                 continue
@@ -368,14 +377,14 @@ def real_out_tokens(op, data, coder):
 
 def canon_model_out(toks):
     if toks[0] == 'X':
-        c, pos = canon_tokens(toks, 1)
+        c, pos = canon_tokens(toks, 1, True)
         return ['X'] + c
     n = int(toks[1]); pos = 2
     out = ['P', toks[1]]
     for _ in range(n):
         out.append(toks[pos]); kind = toks[pos + 1]; pos += 2
         if kind == 'x':
-            c, pos = canon_tokens(toks, pos)
+            c, pos = canon_tokens(toks, pos, True)
             out += ['x'] + c
         else:
             out += [kind, toks[pos]]; pos += 1
